@@ -247,6 +247,11 @@ func runC08(c *core.Ctx) {
 		srv.Write(files)
 		shapes := c08Shapes(r, element, food)
 		sh := shapes[r.Intn(len(shapes))]
+		if r.Intn(4) == 0 {
+			// a shape drawn from the catalogue: flag combinations and values nobody listed by hand
+			sh = c08Shape{args: randomCmd(r, element, food, "2021/01/24").Args}
+			c.Count("catalogue_shapes", 1)
+		}
 		args := []string{"-d", "food.yaml", "-l", "log.yaml", "--today", "2021/02/01"}
 		if r.Intn(3) == 0 {
 			args = append(args, "--no-color")
